@@ -103,50 +103,64 @@ def register(db):
                 raises=[Raises("RuntimeError", mode="iff", when="not self._paused._locked")], modifies=["self._paused._locked"])
 
     # ---- __update_delayed: move the entries whose due time has passed to the waiting queue.
-    # NOTE: the clauses below record the intended contract; the function is decided by the bounded stand-in only, whose
-    # clauses come from the property: nothing moves before T (1 ms resolution), everything due for a polling period moves.
     D0 = f"old({Q}.delayed)"
     S0 = f"old({Q}.simple)"
-    DUE = lambda m, who: (f"exists(T, 'datetime', T in {who} and T in {D0} and T < now and contains({D0}[T], {m}))")  # noqa: E731
+    # The clauses come from the property, not from the comparison the code happens to use: nothing moves before its due
+    # time (T <= now is allowed to move or to stay), everything overdue (T < now) moves, an entry leaves `delayed` exactly
+    # when its messages were moved.  `where` is a ghost witness: the position in pop_soon of every entry picked so far.
+    PICKED = "T in where"
     db.contract(
         fn=C + "__update_delayed", serves=["C05", "C01"], clock=["now"],
-        # the three nested loops need quantified invariants over a dict of lists that neither z3 nor cvc5 discharges
-        # within budget (8 obligations undecided after 23 s each): bounded stand-in, NOT counted as proved
-        bounded="inmem_update_delayed",
-        note="bounded stand-in: exhaustive small states, see replaylib/bounded.py",
+        # proved since the second session (cvc5 on portable dumps, element-wise append lemmas, a witness map for pop_soon);
+        # ONLY the "keeps the single-copy invariant" clauses (used by consume@interference, C14) are left to the bounded
+        # stand-in: they need an injective origin function for the moved messages through two nested loops
+        bounded="inmem_update_delayed", bounded_clauses=["single_copy_kept:*"], seq_lemmas=True,
+        note="bounded stand-in for the single_copy_kept clauses only, see replaylib/bounded.py",
+        fresh={"picked": ("map[datetime, int]", "local('where', None)")},
         ensures={
             "never_early": f"forall(m, 'InMemMessage', implies(contains({Q}.simple, m),"
-                           f" contains({S0}, m) or exists(T, 'datetime', T in {D0} and T < now and contains({D0}[T], m))))",
-            "due_entries_leave_delayed": f"forall(T, 'datetime', (T in {Q}.delayed) == (T in {D0} and not (T < now)))",
+                           f" contains({S0}, m) or exists(T, 'datetime', T in {D0} and T <= now and contains({D0}[T], m))))",
+            "overdue_entries_leave_delayed": f"forall(T, 'datetime', implies(T in {D0} and T < now, T not in {Q}.delayed))",
+            "future_entries_stay": f"forall(T, 'datetime', implies(T in {D0} and now < T, T in {Q}.delayed))",
+            "no_new_entries": f"forall(T, 'datetime', implies(T in {Q}.delayed, T in {D0}))",
             "kept_entries_unchanged": f"forall(T, 'datetime', implies(T in {Q}.delayed, {Q}.delayed[T] == {D0}[T]))",
             "none_forgotten": f"forall(T, 'datetime', forall(m, 'InMemMessage', implies(T in {D0} and T < now"
                               f" and contains({D0}[T], m), contains({Q}.simple, m))))",
+            "left_delayed_iff_moved": f"forall(T, 'datetime', forall(m, 'InMemMessage', implies(T in {D0} and T not in {Q}.delayed"
+                                      f" and contains({D0}[T], m), contains({Q}.simple, m))))"
+                                      f" and forall(m, 'InMemMessage', implies(contains({Q}.simple, m), contains({S0}, m)"
+                                      f" or exists(T, 'datetime', T in {D0} and T not in {Q}.delayed and contains({D0}[T], m))))",
             "waiting_order_kept": f"{Q}.simple[0:len({S0})] == {S0}",
         },
         loops={
             0: LoopInv(header="for (time_, msgs) in self._queue.delayed.items()",
-                       ghost={"visited": "V"},
+                       ghost={"visited": "V",
+                              "vars": {"where": ("map", "empty_map('datetime', 'int')"), "n0": ("int", "0")},
+                              # an entry was picked in this iteration iff pop_soon grew
+                              "update": {"where": "map_with_if(where, len(pop_soon) > n0, time_, len(pop_soon) - 1)",
+                                         "n0": "len(pop_soon)"}},
                        invariant={
                            "delayed_untouched": f"{Q}.delayed == {D0}",
-                           "only_due": f"forall(m, 'InMemMessage', implies(contains({Q}.simple, m), contains({S0}, m) or "
-                                       f"exists(T, 'datetime', T in V and T in {D0} and T < now and contains({D0}[T], m))))",
-                           "all_due_so_far": f"forall(T, 'datetime', forall(m, 'InMemMessage', implies(T in V and T < now"
-                                             f" and contains({D0}[T], m), contains({Q}.simple, m))))",
-                           "pop_soon_are_due": "forall_int(a, implies(0 <= a and a < len(pop_soon), pop_soon[a] in V and pop_soon[a] < now))",
-                           "due_are_in_pop_soon": "forall(T, 'datetime', implies(T in V and T < now,"
-                                                  " exists_int(a, 0 <= a and a < len(pop_soon) and pop_soon[a] == T)))",
-                           "pop_soon_distinct": "forall_int(a, forall_int(b, implies(0 <= a and a < b and b < len(pop_soon),"
-                                                " pop_soon[a] != pop_soon[b])))",
+                           "count": "n0 == len(pop_soon)",
+                           "picked_are_due_and_listed": "forall(T, 'datetime', implies(T in where, T in V and T <= now and 0 <= where[T]"
+                                                        " and where[T] < len(pop_soon) and at(pop_soon, where[T]) == T))",
+                           "listed_are_picked": "forall_int(a, implies(0 <= a and a < len(pop_soon), at(pop_soon, a) in where"
+                                                " and where[at(pop_soon, a)] == a))",
+                           "overdue_are_picked": "forall(T, 'datetime', implies(T in V and T < now, T in where))",
+                           "picked_are_moved": f"forall(T, 'datetime', forall(m, 'InMemMessage', implies({PICKED} and contains({D0}[T], m),"
+                                               f" contains({Q}.simple, m))))",
+                           "only_picked_are_moved": f"forall(m, 'InMemMessage', implies(contains({Q}.simple, m), contains({S0}, m) or "
+                                                    f"exists(T, 'datetime', {PICKED} and T in {D0} and contains({D0}[T], m))))",
                            "prefix": f"{Q}.simple[0:len({S0})] == {S0} and len({Q}.simple) >= len({S0})",
                        },
-                       modifies={"pop_soon": "seq[datetime]", f"{Q}.simple": None}),
+                       modifies={"pop_soon": "seq[datetime]", f"{Q}.simple": None, "where": "map[datetime, int]", "n0": "int"}),
             1: LoopInv(header="for msg in msgs", ghost={"index": "i", "vars": {"s_in": ("seq", f"snap({Q}.simple)")}},
                        invariant={"appended_so_far": f"{Q}.simple == s_in + msgs[0:i]", "delayed_untouched": f"{Q}.delayed == {D0}"},
                        modifies={f"{Q}.simple": None}),
             2: LoopInv(header="comp [self._queue.delayed.pop(i) for i in pop_soon]", ghost={"index": "j"},
                        invariant={
                            "popped_so_far": f"forall(T, 'datetime', (T in {Q}.delayed) == (T in {D0} and"
-                                            " forall_int(a, implies(0 <= a and a < j, pop_soon[a] != T))))",
+                                            " not (T in where and where[T] < j)))",
                            "values_kept": f"forall(T, 'datetime', implies(T in {Q}.delayed, {Q}.delayed[T] == {D0}[T]))",
                        },
                        modifies={f"{Q}.delayed": None}),
